@@ -118,7 +118,7 @@ for d in sorted(glob.glob("/verif/seeded/*/")):
         if caught:
             st["caught_by"] = ", ".join(caught) + " (after strengthening)"
     elif sid in AUTHOR_CONFIRMED:
-        how = "the new tasks run in-process against the patched tree by the check's author" if sid == "C48-4" else "tools/mutant_run.sh run by the check's author, rc=1"
+        how = "tools/mutant_run.sh run by the check's author, rc=1"
         st["caught_by"] = AUTHOR_CONFIRMED[sid] + f" (after strengthening; {how} — not re-run centrally)"
     if sid in INITIALLY_MISSED:
         st["note"] = "initially missed; " + INITIALLY_MISSED[sid]
